@@ -588,11 +588,11 @@ theorem response_chain_shape {κ : Type} {g : Fixes} {encode : CertData → κ} 
 theorem classify_ip (id : String) (b : List Nat) (h : parseAddr id.toList = some b) : classify id = .ip b := by
   simp [classify, h]
 
-theorem classify_uri (id : String) (h1 : parseAddr id.toList = none) (h2 : hasPrefix id uriPrefix = true) :
+theorem classify_uri (id : String) (h1 : parseAddr id.toList = none) (h2 : hasSpiffeScheme id = true) :
     classify id = .uri id := by
   simp [classify, h1, h2]
 
-theorem classify_dns (id : String) (h1 : parseAddr id.toList = none) (h2 : hasPrefix id uriPrefix = false) :
+theorem classify_dns (id : String) (h1 : parseAddr id.toList = none) (h2 : hasSpiffeScheme id = false) :
     classify id = .dns id := by
   simp [classify, h1, h2]
 
@@ -617,10 +617,44 @@ theorem classify_spiffe (rest : List Char) :
       · rfl
       · simp [v6Loop, hexRun, hexVal]
     simp [parseAddr, hfs, h6]
-  · rw [hasPrefix, String.toList_ofList, hl]
+  · rw [hasSpiffeScheme, String.toList_ofList, hl]
     have : uriPrefix.toList = ['s', 'p', 'i', 'f', 'f', 'e', ':', '/', '/'] := by decide
     rw [this]
-    simp [List.isPrefixOf]
+    simp only [List.take_succ_cons, List.take_zero, List.map_cons, List.map_nil]
+    decide
+
+/-- The scheme is compared without regard to case: an identity `SPIFFE://...` (which the peer
+    certificate verifier accepts, `url.String()` lower-casing the scheme) stays a URI SAN ... -/
+theorem classify_spiffe_upper (rest : List Char) :
+    classify (String.ofList ("SPIFFE://".toList ++ rest)) = .uri (String.ofList ("SPIFFE://".toList ++ rest)) := by
+  have hl : "SPIFFE://".toList ++ rest = 'S' :: 'P' :: 'I' :: 'F' :: 'F' :: 'E' :: ':' :: '/' :: '/' :: rest := by
+    have : "SPIFFE://".toList = ['S', 'P', 'I', 'F', 'F', 'E', ':', '/', '/'] := by decide
+    rw [this]; rfl
+  apply classify_uri
+  · rw [String.toList_ofList, hl]
+    have hfs : firstSpecial ('S' :: 'P' :: 'I' :: 'F' :: 'F' :: 'E' :: ':' :: '/' :: '/' :: rest) = some ':' := by
+      simp [firstSpecial]
+    have htw : ('S' :: 'P' :: 'I' :: 'F' :: 'F' :: 'E' :: ':' :: '/' :: '/' :: rest).takeWhile (· ≠ '%')
+        = 'S' :: 'P' :: 'I' :: 'F' :: 'F' :: 'E' :: ':' :: '/' :: '/' :: rest.takeWhile (· ≠ '%') := by
+      simp [List.takeWhile]
+    have h6 : parseIPv6 ('S' :: 'P' :: 'I' :: 'F' :: 'F' :: 'E' :: ':' :: '/' :: '/' :: rest) = none := by
+      unfold parseIPv6
+      simp only [htw]
+      split
+      · rfl
+      · simp [v6Loop, hexRun, hexVal]
+    simp [parseAddr, hfs, h6]
+  · rw [hasSpiffeScheme, String.toList_ofList, hl]
+    have : uriPrefix.toList = ['s', 'p', 'i', 'f', 'f', 'e', ':', '/', '/'] := by decide
+    rw [this]
+    simp only [List.take_succ_cons, List.take_zero, List.map_cons, List.map_nil]
+    decide
+
+/-- ... while the code before fix 197ddc2 turned it into a DNS SAN (finding). -/
+theorem classify_upper_scheme_witness_unfixed :
+    classifyOld "SPIFFE://td1/ns/a/sa/b" = .dns "SPIFFE://td1/ns/a/sa/b" ∧
+    classify "SPIFFE://td1/ns/a/sa/b" = .uri "SPIFFE://td1/ns/a/sa/b" ∧
+    classify "Spiffe://td1/ns/a/sa/b" = .uri "Spiffe://td1/ns/a/sa/b" := by decide
 
 /-! ### Non-vacuity and witnesses (concrete requests evaluated by the kernel) -/
 
